@@ -473,8 +473,62 @@ def run_c15(script, rng, summary):
         if r.get("result") and r.get("better_status") == "sat" and "max_iter" not in cfg:
             return {"what": f"configuration {cfg} returned value {r.get('value')} but {r.get('better_value')} is achievable",
                     "runs": outs}
+    v = toggle_sequence(script, real0, rng, summary)
+    if v:
+        return v
     if rng.random() < 0.5:
         return worst_first_probe(script, real0, rng, summary, "run_c15")
+    return None
+
+
+def toggle_sequence(script, real0, rng, summary):
+    """an option that only changes how z3 searches (parallel, random_values, verbosity) must not change what a short
+    sequence of public calls answers: solve() then find_another_solution() on the same solver object, with and
+    without the option — same verdicts, valid schedules, same optimum of the first call"""
+    if real0.problem.horizon is None and real0.problem.objectives:
+        return None
+    if len(real0.problem.objectives) > 1 or f42_region(script):
+        return None
+    base_cfg = rng.choice([{}, {}, {"optimizer": "optimize"}]) if real0.problem.objectives else {}
+    toggle = rng.choice([{"parallel": True}, {"parallel": True}, {"random_values": True}, {"verbosity": 1}])
+    outs = []
+    for cfg in (dict(base_cfg), dict(base_cfg, **toggle)):
+        real = pslib.Real()
+        real.run(script)
+        rec = {"cfg": cfg}
+        with smrun.silent(), no_stderr():
+            try:
+                s = ps.SchedulingSolver(problem=real.problem, max_time=10, **cfg)
+                t0 = time.time()
+                sol = s.solve()
+                rec["first"] = bool(sol)
+                if sol:
+                    setup = smrun.objective_setup(real, cfg, script)
+                    if setup is not None:
+                        rec["value"] = smrun.value_of(s._model, setup[0])
+                    sol2 = s.find_another_solution()
+                    rec["second"] = bool(sol2)
+                    if sol2 and timing_of(sol2) == timing_of(sol):
+                        rec["same_twice"] = True
+                rec["wall"] = time.time() - t0
+            except Exception as e:  # noqa: BLE001
+                rec["raised"] = f"{type(e).__name__}: {e}"[:200]
+        z3.set_option("parallel.enable", False)
+        outs.append(rec)
+    count(summary, "run_c15_toggle_sequence:" + ",".join(f"{k}" for k in toggle))
+    a, b = outs
+    if a.get("raised") or b.get("raised"):
+        if bool(a.get("raised")) != bool(b.get("raised")):
+            return {"what": f"solve(); find_another_solution() raises with {toggle} only" if b.get("raised") else
+                            f"solve(); find_another_solution() raises without {toggle} only", "runs": outs}
+        return None
+    if max(a.get("wall", 99), b.get("wall", 99)) > 6:
+        count(summary, "run_c15_toggle_sequence_not_compared_time_budget")
+        return None
+    for k, what in (("first", "the verdict of solve()"), ("second", "whether find_another_solution() finds a schedule"),
+                    ("value", "the optimum of solve()")):
+        if k in a and k in b and a[k] != b[k]:
+            return {"what": f"{what} depends on the option {toggle}: {a[k]} without, {b[k]} with", "runs": outs}
     return None
 
 
